@@ -410,6 +410,7 @@ func largeListings(run *evid.Run, idx int) {
 	}()
 	run.Eval(1)
 	a, b := model.NewEnv(mem), model.NewEnv(top)
+	a.Reiterate, b.Reiterate = true, true // the listing sequence is ranged over twice on both sides
 	ops := []*model.Op{{Kind: "Tags", Repo: "many/tags", MaxItems: 4 * n}, {Kind: "Tags", Repo: "many/tags", StartAfter: "t000500", MaxItems: 4 * n}}
 	if nRepos > 0 {
 		ops = append(ops, &model.Op{Kind: "Repositories", MaxItems: 4 * n})
